@@ -12,7 +12,7 @@ ENGINES = [
     dict(name="kani-harnesses", path="/verif/vk/kani_unit.py", serves_properties=["C01", "C02", "C06", "C08", "C09", "C12"],
          kind_free_text="cargo kani on the real crate; harness files /verif/kani/*_proofs.rs are compiled into the defining modules through cfg(kani) hooks; "
                         "loop-free full-domain harnesses are complete, harnesses with symbolic strings are bounded stand-ins and never counted as proved"),
-    dict(name="verus-units", path="/verif/vk/verus_unit.py", serves_properties=["C01", "C02", "C03", "C06", "C07", "C08", "C09", "C10", "C12", "C13", "C15", "C16", "C17", "C19", "C20"],
+    dict(name="verus-units", path="/verif/vk/verus_unit.py", serves_properties=["C01", "C02", "C03", "C05", "C06", "C07", "C08", "C09", "C10", "C12", "C13", "C15", "C16", "C17", "C19", "C20"],
          kind_free_text="mechanical extraction of the real functions (vk/extract.py, rules R1-R8) + contracts/<unit>.vc, discharged by Verus 0.2026.09.13 / Z3; "
                         "every diagnostic is mapped back to a named obligation (function::label)"),
 ]
@@ -110,6 +110,18 @@ CHECKS = {
         level_note="Sequential semantics. That the three transports call Client::left exactly once per ended session is glue (checked only by the bounded "
                    "sweep through the public API). get_mut / mem::replace have trusted specs.",
     ),
+    "C05": dict(
+        engine="verus-units", design_ref="DESIGN.md §10 'C05 contract notes'", technique="deductive verification (Verus/Z3) of function contracts with loop invariants on the extracted real full-synchronisation emitters; three obligations fail on the unchanged tree and are recorded as known findings with concrete witnesses",
+        text="Emitter half of the statement, for every set of databases and keys: the REAL get_full_sync_opps announces every database except $admin (name and token), "
+             "sends a line for every live key of it and ends it with the snapshot request (discharged, with loop invariants over both loops); get_pendding_opps_since sends "
+             "everything when since == 0. Three clauses taken from the statement FAIL on the unchanged tree and are listed in known_findings.json, each with the failed "
+             "obligation and a witness scenario of the bounded sweep (which feeds the real lines through the real parser of an empty node and compares datasets): the lines "
+             "lack the version field the receiver parses (values and versions do not arrive), removed keys are sent as live writes, and the conflict strategy of a database "
+             "is not sent. The existing unit tests pin the emitted strings, so none of the three can be repaired without editing tests.",
+        level_note="Only the full-synchronisation emitter is under contract. The join handshake, the incremental (oplog) path, the receiving handlers and writes "
+                   "accepted during the synchronisation are NOT decided. A known finding suppresses exactly its own obligation (or its own sweep scenario): any other "
+                   "failing clause or scenario is still a VIOLATION.",
+    ),
     "C06": dict(
         engine="verus-units", design_ref="DESIGN.md §10 'C06 contract notes'", technique="deductive verification (Verus/Z3) of function contracts, loop invariants and an invariant over snapshot histories on the extracted real disk writer, loader and store operations, over an abstract disk image",
         text="For every database state, every key/value length and both snapshot modes: (1) the REAL NodeDrive::storage_data_disk produces exactly the per-state write "
@@ -184,7 +196,6 @@ CHECKS = {
 
 NOT_APPLICABLE = {
     "C04": "Convergence quantifies over message delivery orders between 2-3 processes; no contract on one call can state it and the code that forwards/fans out is the dyn-Fn dispatcher and async loops neither verifier accepts.",
-    "C05": "Resynchronisation is a two-node protocol over sockets; the sync emitters build their lines inline while iterating HashMaps (Kani cannot, Verus has no string formatting), so even the encode/parse round trip of the sync line is out of reach.",
     "C11": "Crash points of a writer are not expressible as pre/postconditions of a call; neither verifier has a crash-consistent file model.",
     "C14": "A bound on inter-node traffic is a global ranking argument over the dispatcher and the replication loop on several nodes.",
     "C18": "Both S3 strategies are async AWS-SDK network code inside a tokio runtime.",
